@@ -827,3 +827,173 @@ Proof.
     + reflexivity.
   - discriminate.
 Qed.
+
+From UV Require Import Proofs.ThreadPoolProofsA.
+
+Lemma InvC_init c progs : InvC c (init c progs).
+Proof.
+  constructor; cbn.
+  - intros l. unfold init_loop, loop_ok, cur_op. destruct (nth l progs []) as [|o p]; cbn.
+    + repeat split; try discriminate; auto.
+    + repeat split; try discriminate; auto; intros [K | [K | K]]; discriminate.
+  - intros l. cbn. reflexivity.
+  - discriminate.
+  - discriminate.
+  - intros r K. exfalso. apply K. reflexivity.
+Qed.
+
+Lemma InvC_step c s t aux s' :
+  1 <= c_n c -> InvA c s -> InvB c s -> InvC c s -> step c s t aux = Some s' -> InvC c s'.
+Proof.
+  intros Hn HA HB HC. unfold step. destruct (t <? c_loops c) eqn:E1.
+  - apply Nat.ltb_lt in E1. intros Hs. apply InvC_split. split.
+    + eapply InvL_lstep; eauto.
+    + apply InvC_split in HC. destruct HC as [_ HP]. eapply p5_lstep; eauto.
+  - destruct (t - c_loops c <? c_n c) eqn:E2; [|discriminate].
+    apply Nat.ltb_lt in E2. apply InvC_wstep; assumption.
+Qed.
+
+Theorem invC_reachable : forall c progs s, 1 <= c_n c -> reachable c progs s -> InvC c s.
+Proof.
+  intros c progs s Hn. apply reachable_ind.
+  - apply InvC_init.
+  - intros s0 t aux s1 Hr H E. eapply InvC_step; eauto.
+    + eapply invA_reachable; eauto.
+    + eapply invB_reachable; eauto.
+Qed.
+
+(* ---- no deadlock ---- *)
+Lemma lstep_enabled c l s :
+  gmutex s = None ->
+  (l_pc (lp s l) = LReady /\ cur_op (lp s l) <> None) \/ (exists r, l_pc (lp s l) = LCancel2 r) \/
+  (exists r, l_pc (lp s l) = LCancel3 r) \/ l_pc (lp s l) = LWorkDone \/
+  (l_pc (lp s l) = LDrain /\ l_pending (lp s l) = true) ->
+  lstep c l 0 s <> None.
+Proof.
+  intros Hg H. unfold lstep. rewrite Hg. cbn [is_free].
+  destruct H as [[E K] | [[r E] | [[r E] | [E | [E K]]]]]; rewrite E.
+  - destruct (cur_op (lp s l)) as [[k | r |]|]; [| | |contradiction].
+    + discriminate.
+    + destruct (valid_cancel s l r); discriminate.
+    + destruct (l_cb (lp s l)); [|discriminate].
+      destruct (l_active (lp s l) =? 0); [discriminate|]. destruct (l_pending (lp s l)); discriminate.
+  - match goal with |- context [if ?b then _ else _] => destruct b end; discriminate.
+  - discriminate.
+  - discriminate.
+  - rewrite K. discriminate.
+Qed.
+
+Lemma lstep_cancel2_enabled c l s r : l_pc (lp s l) = LCancel2 r -> lstep c l 0 s <> None.
+Proof.
+  intros E. unfold lstep. rewrite E.
+  match goal with |- context [if ?b then _ else _] => destruct b end; discriminate.
+Qed.
+
+Lemma wstep_enabled c t w s :
+  gmutex s = None -> wk s w <> WWait false -> wk s w <> WExited -> wstep c t w 0 s <> None.
+Proof.
+  intros Hg H1 H2. unfold wstep. rewrite Hg. cbn [is_free].
+  destruct (wk s w) as [b | [] | r b |]; try discriminate; contradiction.
+Qed.
+
+Lemma step_loop c s l : l < c_loops c -> step c s l 0 = lstep c l 0 s.
+Proof. intros H. unfold step. apply Nat.ltb_lt in H. rewrite H. reflexivity. Qed.
+
+Lemma step_worker c s w : w < c_n c -> step c s (c_loops c + w) 0 = wstep c (c_loops c + w) w 0 s.
+Proof.
+  intros H. unfold step.
+  assert (c_loops c + w <? c_loops c = false) as E1 by (apply Nat.ltb_ge; lia).
+  rewrite E1. replace (c_loops c + w - c_loops c) with w by lia.
+  apply Nat.ltb_lt in H. rewrite H. reflexivity.
+Qed.
+
+Theorem no_stuck :
+  forall c progs s r,
+    1 <= c_n c -> reachable c progs s ->
+    unf_st (r_st (reqs s r)) = true ->
+    exists t, step c s t 0 <> None.
+Proof.
+  intros c progs s r Hn Hr Hu.
+  pose proof (invA_reachable c progs s Hr) as HA.
+  pose proof (invB_reachable c progs s Hr) as HB.
+  pose proof (invC_reachable c progs s Hn Hr) as HC.
+  destruct HC as [Hok Hact Hgm Hp5 Hlt].
+  destruct (gmutex s) as [l0|] eqn:Eg.
+  { destruct (Hgm l0 eq_refl) as [Hl0 [r0 K]]. exists l0. rewrite step_loop by exact Hl0.
+    eapply lstep_cancel2_enabled. exact K. }
+  assert (forall w, w < c_n c -> wk s w <> WWait false -> exists t, step c s t 0 <> None) as Hworker.
+  { intros w Hw K. exists (c_loops c + w). rewrite step_worker by exact Hw.
+    apply wstep_enabled; auto. apply (b_noexited c s HB). }
+  set (l := r_loop (reqs s r)).
+  assert (l < c_loops c) as Hl.
+  { apply Hlt. intros E. rewrite E in Hu. discriminate. }
+  assert (forall K, (l_pc (lp s l) = LReady /\ cur_op (lp s l) <> None) \/ (exists r, l_pc (lp s l) = LCancel2 r) \/
+             (exists r, l_pc (lp s l) = LCancel3 r) \/ l_pc (lp s l) = LWorkDone \/
+             (l_pc (lp s l) = LDrain /\ l_pending (lp s l) = true) -> K = K -> exists t, step c s t 0 <> None) as Hloop.
+  { intros _ K _. exists l. rewrite step_loop by exact Hl. apply lstep_enabled; assumption. }
+  destruct (Hok l) as (K1 & K2 & K3 & K4 & K5).
+  destruct (r_st (reqs s r)) as [| |w| | | |st] eqn:Est; try discriminate.
+  - (* Queued *)
+    assert (In r (wq_reqs (wq s) ++ sp s)) as Hin by (apply (a_queued c s HA); exact Est).
+    destruct (wait_pred c s) eqn:Ewp.
+    + (* only possible when the marker is alone and the slow cap is reached *)
+      unfold wait_pred in Ewp. apply in_app_or in Hin.
+      destruct (wq s) as [|x [|y q]] eqn:Eq.
+      * destruct Hin as [[] | Hin].
+        assert (sp s <> []) as Hsp by (intros E; rewrite E in Hin; destruct Hin).
+        pose proof (b_sp_marker c s HB Hsp) as K. rewrite Eq in K. discriminate.
+      * destruct x as [r0| |]; try discriminate.
+        apply Nat.leb_le in Ewp.
+        pose proof (threshold_pos (c_n c) Hn) as Hth.
+        assert (1 <= countw slow_pc (c_n c) (wk s)) as Hc.
+        { rewrite <- (b_running c s HB). lia. }
+        destruct (countw_pos_exists _ _ _ Hc) as (w & Hw & Hsl).
+        apply (Hworker w Hw). intros E. rewrite E in Hsl. discriminate.
+      * destruct x; discriminate.
+    + destruct (Hp5 Ewp) as (w & Hw & K). apply (Hworker w Hw K).
+  - (* Running w *)
+    destruct (proj1 (a_running c s HA r w) Est) as [b Hwk].
+    assert (w < c_n c) as Hw.
+    { destruct (Nat.lt_ge_cases w (c_n c)) as [K | K]; [exact K|].
+      rewrite (b_outside c s HB w K) in Hwk. discriminate. }
+    apply (Hworker w Hw). rewrite Hwk. discriminate.
+  - (* Finished *)
+    assert (In r (l_wq (lp s l) ++ l_local (lp s l))) as Hin.
+    { apply (a_loopq c s HA). split; [reflexivity | left; exact Est]. }
+    apply (Hloop True); [|reflexivity].
+    destruct (l_pc (lp s l)) as [| r0 | r0 | | |] eqn:Epc; eauto 6.
+    + left. split; [reflexivity | apply K1; reflexivity].
+    + right. right. right. right. split; [reflexivity|].
+      destruct K3 as [Hd _]; [right; left; reflexivity|].
+      apply in_app_or in Hin. rewrite (a_local c s HA l Hd) in Hin.
+      destruct Hin as [Hin | []]. destruct K5 as [K | K]; [intros E; rewrite E in Hin; destruct Hin | exact K | discriminate].
+    + exfalso. specialize (K4 eq_refl).
+      assert (1 <= countr (unf l) (nreq s) (reqs s)) as Hc.
+      { apply (countr_pos _ _ _ r).
+        - destruct (Nat.lt_ge_cases r (nreq s)) as [K | K]; [exact K|].
+          rewrite (a_free c s HA r K) in Est. discriminate.
+        - unfold unf. fold l. rewrite Nat.eqb_refl, Est. reflexivity. }
+      rewrite <- (Hact l) in Hc. lia.
+  - (* Limbo *)
+    apply (Hloop True); [|reflexivity]. right. right. left. exists r. apply (a_limbo c s HA r Est).
+  - (* Cancelled *)
+    assert (In r (l_wq (lp s l) ++ l_local (lp s l))) as Hin.
+    { apply (a_loopq c s HA). split; [reflexivity | right; exact Est]. }
+    apply (Hloop True); [|reflexivity].
+    destruct (l_pc (lp s l)) as [| r0 | r0 | | |] eqn:Epc; eauto 6.
+    + left. split; [reflexivity | apply K1; reflexivity].
+    + right. right. right. right. split; [reflexivity|].
+      destruct K3 as [Hd _]; [right; left; reflexivity|].
+      apply in_app_or in Hin. rewrite (a_local c s HA l Hd) in Hin.
+      destruct Hin as [Hin | []]. destruct K5 as [K | K]; [intros E; rewrite E in Hin; destruct Hin | exact K | discriminate].
+    + exfalso. specialize (K4 eq_refl).
+      assert (1 <= countr (unf l) (nreq s) (reqs s)) as Hc.
+      { apply (countr_pos _ _ _ r).
+        - destruct (Nat.lt_ge_cases r (nreq s)) as [K | K]; [exact K|].
+          rewrite (a_free c s HA r K) in Est. discriminate.
+        - unfold unf. fold l. rewrite Nat.eqb_refl, Est. reflexivity. }
+      rewrite <- (Hact l) in Hc. lia.
+Qed.
+
+Print Assumptions invC_reachable.
+Print Assumptions no_stuck.
